@@ -20,9 +20,9 @@ EXPLANATION = (
     "the two appends, both after the item finished) and the returned results pass through a sort keyed by that index; the unbounded branch returns "
     "the gather result of tasks built by iterating the variations in order; (R3) the sync map runs and appends in iteration order and, like the "
     "collectors, raises the first failed item's own error object; (R4) zip expansion indexes every mapped list with the same increasing index after "
-    "an equal-length check, product expansion is itertools.product over the lists in map_over order. (R5) a mapping graph node's executor forwards every translated input to the nested map unchanged, dropping exactly the values that *are* the inner graph's own bound objects (truth table of the comprehension filter over 'key bound' x 'same object'). R1 also requires that under 'item FAILED and mode is not raise' every reachable append stores the constant None (partial values of a failed item are not results)."
+    "an equal-length check, product expansion is itertools.product over the lists in map_over order. (R6) clone: the copy helper returns copy.deepcopy(value) on every normal path (no type-based shortcut), clone=True passes every broadcast value and clone=[names] exactly the listed ones through it, and the copies are made inside the per-item loops; (R5) a mapping graph node's executor forwards every translated input to the nested map unchanged, dropping exactly the values that *are* the inner graph's own bound objects (truth table of the comprehension filter over 'key bound' x 'same object'). R1 also requires that under 'item FAILED and mode is not raise' every reachable append stores the constant None (partial values of a failed item are not results)."
 )
-NOT_DECIDED = "That each item's result equals the single run on that combination, and the values produced by zip/product expansion (statements about computed data); clone semantics."
+NOT_DECIDED = "That each item's result equals the single run on that combination, and the values produced by zip/product expansion (statements about computed data)."
 
 
 def run(ctx) -> None:
@@ -31,6 +31,7 @@ def run(ctx) -> None:
     rep.rule("C10.R2", "bounded async map restores input order from an atomically paired index list", floor=3)
     rep.rule("C10.R3", "sync map keeps iteration order; first failing item's own error is raised", floor=3)
     rep.rule("C10.R4", "zip/product expansion enumerate combinations in input order", floor=3)
+    rep.rule("C10.R6", "clone: every cloned broadcast value is a fresh deep copy per item, whatever its type", floor=4)
     rep.rule("C10.R5", "a mapping graph node forwards every supplied input to the nested map (only the inner graph's own bound objects are left to be resolved inside)", floor=2)
 
     # ---- R1 ---------------------------------------------------------------------
@@ -155,6 +156,32 @@ def run(ctx) -> None:
                     okf = okf and dead_when_false(atoms_mode)
                 rep.add("C10.R3", f"{f.qname}:first-failure@{_k(f, n)}", okf, f"{f.module.rel}:{n.lineno}", "raises the first FAILED item's own error, scanning in input order" if okf else "the raised error is not the first failed item's in input order")
 
+    # ---- R6 ---------------------------------------------------------------------
+    cv = db.func("runners._shared.helpers._clone_value")
+    rets = [n for n in walk_local(cv.node) if isinstance(n, ast.Return)]
+    p0 = cv.positional_params[0]
+    ok = bool(rets) and all(isinstance(r.value, ast.Call) and dotted(r.value.func) == "copy.deepcopy" and r.value.args and src(r.value.args[0]) == p0 for r in rets)
+    rep.add("C10.R6", f"{cv.qname}:always-deepcopy", ok, cv.loc(), "every normal return is copy.deepcopy(value)" if ok else f"a value can be returned without a deep copy ('{[src(r.value) for r in rets if not (isinstance(r.value, ast.Call) and dotted(r.value.func) == 'copy.deepcopy')][:1]}'): e.g. a tuple/NamedTuple holding a list is shared by all items, item i sees the mutations of items 0..i-1")
+    mcb = db.func("runners._shared.helpers._maybe_clone_broadcast")
+    mcfg = ctx.cfg(mcb)
+    cp = (mcb.param_names + ["", ""])[1]
+    # clone is True: every value goes through _clone_value; clone is a list: exactly the listed ones
+    def comp_of(live):
+        return [r.ast.value for r in live if r.kind == "stmt" and isinstance(r.ast, ast.Return) and isinstance(r.ast.value, ast.DictComp)]
+    live_true = reachable(mcfg.entry, specialize({f"{cp} is False": False, f"{cp} is True": True}, mcfg))
+    ct = comp_of(live_true)
+    ok = len(ct) == 1 and isinstance(ct[0].value, ast.Call) and "_clone_value" in call_names(db, ct[0].value, mcb) and not ct[0].generators[0].ifs and src(ct[0].key) == src(ct[0].generators[0].target.elts[0])
+    rep.add("C10.R6", f"{mcb.qname}:clone-all", ok, mcb.loc(), "clone=True copies every broadcast value" if ok else "with clone=True some broadcast value is not passed through the copy helper")
+    live_list = reachable(mcfg.entry, specialize({f"{cp} is False": False, f"{cp} is True": False}, mcfg))
+    cl = comp_of(live_list)
+    ok = len(cl) == 1 and isinstance(cl[0].value, ast.IfExp) and isinstance(cl[0].value.body, ast.Call) and "_clone_value" in call_names(db, cl[0].value.body, mcb) and isinstance(cl[0].value.test, ast.Compare) and isinstance(cl[0].value.test.ops[0], ast.In) and src(cl[0].value.test.comparators[0]) == cp and not cl[0].generators[0].ifs
+    rep.add("C10.R6", f"{mcb.qname}:clone-listed", ok, mcb.loc(), "clone=[names] copies exactly the listed broadcast values and forwards the others" if ok else "with clone=[names] the listed values are not exactly the ones copied")
+    for g_ in (db.func("runners._shared.helpers._generate_zip_inputs"), db.func("runners._shared.helpers._generate_product_inputs")):
+        loops = [n for n in walk_local(g_.node) if isinstance(n, ast.For)]
+        calls = [c for c in db.calls_in(g_) if "_maybe_clone_broadcast" in call_names(db, c, g_)]
+        ok = bool(calls) and all(any(contains(lp, c) for lp in loops) for c in calls)
+        rep.add("C10.R6", f"{g_.qname}:cloned-per-item", ok, g_.loc(), "broadcast values are cloned inside the per-item loop (a fresh copy for every item)" if ok else "broadcast values are cloned once outside the per-item loop: all items share one copy")
+
     # ---- R5 ---------------------------------------------------------------------
     from .c18 import check_nested_map_inputs
 
@@ -274,6 +301,7 @@ HP = "src/hypergraph/runners/_shared/helpers.py"
 TA = "src/hypergraph/runners/_shared/template_async.py"
 TS = "src/hypergraph/runners/_shared/template_sync.py"
 VARIANTS = [
+    Variant("clone-once-for-all-items", "src/hypergraph/runners/_shared/helpers.py", sub_first(r"(\n    for [^\n]*:\n(?:        [^\n]*\n)*?        yield \{\n(?:            [^\n]*\n)*?)            \*\*_maybe_clone_broadcast\(broadcast_values, clone\),", r"\1            **broadcast_values,"), {"C10.R6"}),
     Variant("failed-item-partial-values", "src/hypergraph/runners/_shared/helpers.py", replace_once("            # Continue mode: use None placeholders to preserve list length\n            for name in node.outputs:\n                collected[name].append(None)\n            continue\n", ""), {"C10.R1"}),
     Variant("nested-map-drops-overriding-broadcast", "src/hypergraph/runners/sync/executors/graph_node.py", replace_once("if not (k in inner_bound and v is inner_bound[k])}", "if k not in inner_bound}"), {"C10.R5"}),
     Variant("twin-nested-map-filter-demorgan", "src/hypergraph/runners/async_/executors/graph_node.py", replace_once("if not (k in inner_bound and v is inner_bound[k])}", "if k not in inner_bound or v is not inner_bound[k]}"), set()),
